@@ -1,11 +1,74 @@
 (* The tables covered by the generic theorems, collected from the per-table proof files. *)
 From Coq Require Import NArith List.
 From ACPI Require Import Lib.Bytes Lib.Sx Impl.Table Proofs.TableP Proofs.Tables.
-From ACPI Require Import Proofs.MadtP Proofs.XsdtP Proofs.McfgP Proofs.SratP.
+From ACPI Require Import Lib.Sx Proofs.MadtP Proofs.XsdtP Proofs.McfgP Proofs.SratP Proofs.HestP Proofs.HmatP Proofs.PpttP Proofs.RhctP Proofs.RimtP Proofs.ViotP Proofs.CedtP.
 Import ListNotations.
 
 (* tables all of whose public mutating operations are additions (instances of Impl/Table.v) *)
-Definition add_tables : list addtable := [madt_table; xsdt_table; mcfg_table; srat_table].
+Definition add_tables : list addtable :=
+  [madt_table; xsdt_table; mcfg_table; srat_table; hest_table; hmat_table Checked; hmat_table Wrapping; pptt_table; rhct_table;
+   rimt_table; viot_table; cedt_table].
 
 (* tables whose additions are proved to be self-describing entries *)
 Definition walk_tables : list walktable := [madt_walk].
+
+(* ------------------------------------------------------------------------------------------------
+   C01 / C02 for the incrementally maintained tables *)
+From ACPI Require Import Lib.Machine Spec.Layout Proofs.FixedP Proofs.BertP Proofs.SpcrP Proofs.FacsP Proofs.RsdpP Proofs.Tpm2P.
+From ACPI Require Import Impl.Bert Impl.Spcr Impl.Facs Impl.Rsdp Impl.Tpm2 Impl.Fields.
+Open Scope N_scope.
+
+Lemma add_tables_sum (T : addtable) md c ops s0 s :
+  at_new T c = Some s0 -> run_adds (at_entry T) md s0 ops = Some s ->
+  N.of_nat (length (tbl_image s)) < 2 ^ 32 -> sum8 (tbl_image s) = 0.
+Proof. intros Hn Hr Hfit. apply inv_sum8_zero. exact (proj1 (addtable_reach T md c ops s0 s Hn Hr Hfit)). Qed.
+
+Lemma add_tables_len (T : addtable) md c ops s0 s :
+  at_new T c = Some s0 -> run_adds (at_entry T) md s0 ops = Some s ->
+  N.of_nat (length (tbl_image s)) < 2 ^ 32 -> field_at (tbl_image s) 4 4 = N.of_nat (length (tbl_image s)).
+Proof.
+  intros Hn Hr Hfit. apply image_len_field; [|exact Hfit]. exact (proj1 (addtable_reach T md c ops s0 s Hn Hr Hfit)).
+Qed.
+
+(* the structures that are not addition tables: every constructor argument, every sequence of operations the model accepts *)
+Definition fixed_sum_statement : Prop :=
+  (forall md c ops s0 s, bert_new c = Some s0 -> run_steps (bert_step md) s0 ops = Some s -> sum8 (bert_bytes s) = 0) /\
+  (forall md c ops s0 s, spcr_new c = Some s0 -> run_steps (spcr_step md) s0 ops = Some s -> sum8 (spcr_bytes s) = 0) /\
+  (forall md c ops s0 s, tpmclient_new c = Some s0 -> run_steps (tpmclient_step md) s0 ops = Some s -> sum8 (tpmclient_bytes s) = 0) /\
+  (forall md c ops s0 s, tpmserver_new c = Some s0 -> run_steps (tpmserver_step md) s0 ops = Some s -> sum8 (tpmserver_bytes s) = 0) /\
+  (forall md c ops s0 s, tpm2_new c = Some s0 -> run_steps (tpm2_step md) s0 ops = Some s -> sum8 (tpm2_bytes s) = 0) /\
+  (forall md c ops s0 s, rsdp_new c = Some s0 -> run_steps (rsdp_step md) s0 ops = Some s ->
+                         sum8 (rsdp_bytes s) = 0 /\ sum8 (firstn 20 (rsdp_bytes s)) = 0).
+
+Lemma fixed_sum : fixed_sum_statement.
+Proof.
+  unfold fixed_sum_statement. repeat split; intros.
+  - eapply bert_sum_len; eauto. - eapply spcr_sum_len; eauto. - eapply tpmclient_sum_len; eauto.
+  - eapply tpmserver_sum_len; eauto. - eapply tpm2_sum_len; eauto.
+  - eapply rsdp_sums_len; eauto. - eapply rsdp_sums_len; eauto.
+Qed.
+
+Definition fixed_len_statement : Prop :=
+  (forall md c ops s0 s, bert_new c = Some s0 -> run_steps (bert_step md) s0 ops = Some s ->
+                         field_at (bert_bytes s) 4 4 = N.of_nat (length (bert_bytes s))) /\
+  (forall md c ops s0 s, spcr_new c = Some s0 -> run_steps (spcr_step md) s0 ops = Some s ->
+                         field_at (spcr_bytes s) 4 4 = N.of_nat (length (spcr_bytes s))) /\
+  (forall md c ops s0 s, tpmclient_new c = Some s0 -> run_steps (tpmclient_step md) s0 ops = Some s ->
+                         field_at (tpmclient_bytes s) 4 4 = N.of_nat (length (tpmclient_bytes s))) /\
+  (forall md c ops s0 s, tpmserver_new c = Some s0 -> run_steps (tpmserver_step md) s0 ops = Some s ->
+                         field_at (tpmserver_bytes s) 4 4 = N.of_nat (length (tpmserver_bytes s))) /\
+  (forall md c ops s0 s, tpm2_new c = Some s0 -> run_steps (tpm2_step md) s0 ops = Some s ->
+                         field_at (tpm2_bytes s) 4 4 = N.of_nat (length (tpm2_bytes s))) /\
+  (forall md c ops s0 s, rsdp_new c = Some s0 -> run_steps (rsdp_step md) s0 ops = Some s ->
+                         field_at (rsdp_bytes s) 20 4 = 36 /\ length (rsdp_bytes s) = 36%nat) /\
+  (forall md c ops s0 s, facs_new c = Some s0 -> run_steps (facs_step md) s0 ops = Some s ->
+                         field_at (ser_flds s) 4 4 = 64 /\ length (ser_flds s) = 64%nat).
+
+Lemma fixed_len : fixed_len_statement.
+Proof.
+  unfold fixed_len_statement. repeat split; intros.
+  - eapply bert_sum_len; eauto. - eapply spcr_sum_len; eauto. - eapply tpmclient_sum_len; eauto.
+  - eapply tpmserver_sum_len; eauto. - eapply tpm2_sum_len; eauto.
+  - eapply rsdp_sums_len; eauto. - eapply rsdp_sums_len; eauto.
+  - eapply facs_len; eauto. - eapply facs_len; eauto.
+Qed.
